@@ -121,6 +121,7 @@ type VC struct {
 	boxUsed     map[string]bool
 	quiet       int // >0: speculative run, do not record obligations
 	exemptC03   int // >0: executing below a declared error swallow
+	swallowStack [][]string // declared swallows of the frames on the inlining stack
 	globals     []string // unconditional facts about uninterpreted symbols (never rolled back)
 	rawDecls    []string
 	declIndex   map[string]int
